@@ -42,6 +42,7 @@ Report(line, rules, e) ==
                                        THEN [lo |-> Dur[e.acked + 1], hi |-> e.invoked + 1,
                                              per |-> [k \in Dur[e.acked + 1]..(e.invoked + 1) |-> DumpRules(H[k], e.dump)],
                                              bad |-> DumpBad(H[e.invoked + 1], e.dump), badlo |-> DumpBad(H[Dur[e.acked + 1]], e.dump)]
+                                       ELSE IF e.ev = "dump" THEN DumpBad(s.objs, e)
                                        ELSE <<>>,
                             want |-> IF e.ev = "call" /\ e.proc = "READ" /\ ObjOf(s, e.fh) # 0 /\ ~e.offsat
                                      THEN RRead(s.objs[ObjOf(s, e.fh)].data, e.off, e.cnt) ELSE <<>>]))
